@@ -33,6 +33,12 @@ TEXTS = {
                      "Every model behaviour up to depth 4 (95 393 of them, seeded sample in the quick tier), TLC-simulated behaviours of length 10-14 and long weighted walks (two accounts, claim-cancel-claim corners, governance changes of schedule length incl. 0 and of the maximum) are replayed on the REAL ElysApp through FinalizeBlock/Commit; "
                      "TLC then checks on every observed step that the stored vesting list, the claimable Eden and the bank balances after the step EQUAL the specification's function of the state before it, that a claim whose messages ran always succeeds, and that nobody else's entries change.",
             "note": _TB},
+    "C16": {"technique": "deterministic TLA+ specification of the price table (feed / expiry as functions, reference lookup as a relation), exhaustive TLC model over prefix- and concatenation-related names, behaviours replayed on the real chain, TLC trace validation of table equality and of every probed lookup",
+            "level": "spec/elys/Oracle.tla specifies Feed, Expire and the reference lookup (exactly the asked asset; elys, then band, then any source; newest entry of that source; none when there is no such entry; denom lookups yield 0 without asset info or live price). "
+                     "spec/mc/MC_oracle.tla executes it over names that are prefixes and concatenations of one another with three would-be feeders and both expiry rules; TLC checks the lookup laws and the step contract exhaustively (2.6e5 states quick, 5e6 thorough). "
+                     "All 42 875 model behaviours of depth 3 (seeded sample in the quick tier), TLC-simulated behaviours of length 12-16 and long weighted walks are replayed on the REAL ElysApp; at every observation point the harness calls the real GetAssetPrice for every probed name and GetAssetPriceFromDenom for probed denoms; "
+                     "TLC checks on every observed step that the stored table equals the specification's function of the table before the step (feeds write exactly the fed entries, end of block removes exactly the expired ones, nothing else changes it), that every lookup result is admitted by the reference lookup over the stored table, that only an active registered feeder's feed succeeds, and that the feeder registry changes only through the feeder's own or governance messages.",
+            "note": _TB + " Known finding C16-key-collision-on-concatenated-names is matched by an exact signature evaluated in TLA+."},
     "C08": {"technique": "TLA+ state invariants over leveraged-LP positions + close step contract, TLC trace validation",
             "level": _lvl("C08 is the invariant pool.LeveragedLpAmount = sum of position LP amounts, position LP = shares committed at the position address, open counter = stored positions, nothing left committed at the address of a removed position; checked after every begin-block sweep, transaction and end-block of histories with opens, consolidations, partial/full closes, bot MsgClosePositions and price moves."),
             "note": _TB},
